@@ -416,7 +416,12 @@ func TestBursts(t *testing.T) {
 	batch := r.Pick(48, 96)
 	reported := 0
 	sigs := map[string]bool{}
+	box := &cl.Infra{}
 	r.Rapid(t, "TestBursts", r.Pick(3, 50), func(rt *rapid.T) {
+		if box.Err() != nil {
+			rapid.Bool().Draw(rt, "skipped-after-infra-error")
+			return
+		}
 		if reported >= 3 {
 			return
 		}
@@ -429,7 +434,8 @@ func TestBursts(t *testing.T) {
 		}
 		verdicts, err := runBatch(l, bursts)
 		if err != nil {
-			rt.Fatalf("infra: %v", err)
+			box.Set(err)
+			return
 		}
 		// confirm the failures on fresh canaries (one more batch), then report the
 		// smallest reproducible one per failure kind
@@ -444,7 +450,8 @@ func TestBursts(t *testing.T) {
 		}
 		again, err := runBatch(l, failed)
 		if err != nil {
-			rt.Fatalf("infra: %v", err)
+			box.Set(err)
+			return
 		}
 		type cand struct {
 			b   burst
@@ -478,6 +485,9 @@ func TestBursts(t *testing.T) {
 			r.Violation(t, "TestBursts", small, msg)
 		}
 	})
+	if e := box.Err(); e != nil {
+		t.Fatalf("infra: %v", e)
+	}
 }
 
 // kind reduces an oracle message to its failure kind.
